@@ -432,12 +432,14 @@ class Engine:
         fr = st.frames.pop()
         for a in fr.allocas:
             st.allocs.pop(a, None)
+        if fr.ret_to == 'reexec': return          # a call injected by a stub in front of the caller's current call instruction: that instruction now executes (again)
         if st.frames:
             caller = st.frames[-1]
             I = caller.fn['blocks'][caller.bi][1][caller.ii]
             if I['dst'] is not None and not isinstance(res(I['ty']), VoidT): caller.regs[I['dst']] = v
             if I['op'] == 'invoke': s.jump(st, caller, I['normal'])
             else: caller.ii += 1
+            if isinstance(fr.ret_to, tuple) and fr.ret_to[0] == 'post': fr.ret_to[1](st, v)        # post-hook installed by a stub (may push another frame with ret_to='reexec')
         else:
             st.result = ('ret', v)
 
